@@ -2,16 +2,23 @@
 from ..lib import coqrun
 
 PROP = "C10"
-COQ_IMPORTS = ["Futures"]
-COQ_FN = "Futures.run_case"
+COQ_IMPORTS = ["TaskFut"]
+COQ_FN = "TaskFut.run_any"
 IMPL = "c10_impl.py"
 RULE = ("op sequences (value, error, call, is_computed, set_value, set_error, reset_unsafe, subscribe ok/raising) of length "
         "0..40 on FutureBase / Future(provider script) / AsyncTask / ConstFuture / ErrorFuture; 75% mostly-valid stream, 25% "
-        "malformed stream (double sets, sets after reset, raising callbacks); distinct = different (kind, script, op list); "
-        "non-trivial = at least one completion and at least one op after it")
+        "malformed stream (double sets, sets after reset, raising callbacks); plus scheduled tasks (KSusp): a body of 0..3 "
+        "suspensions (dependency = lazy Future or batch item, completing with a value or an error), each with a cleanup "
+        "behaviour on close() (clean / raises Exception / raises BaseException / yields again) and 0..6 inner operations "
+        "issued on the task while it is suspended (is_computed, set_value, set_error, subscribe ok/raising, guarded reads), "
+        "driven by the same top-level op lists; distinct = different (kind, script, op list); "
+        "non-trivial = at least one completion and at least one op after it (KSusp: the body is started by a read and "
+        "suspends at least once)")
 TRUSTED = ["qcore.events.EventHook.safe_trigger and qcore.errors.reraise are exercised, not modelled separately"]
 ASSUMPTIONS = ["callbacks raise only Exception subclasses (BaseException from a callback is outside the statement)",
-               "batches and batch items are driven by C11's check; AsyncTask here has a batch-free body"]
+               "batches and batch items are driven by C11's check; here a batch item only carries a task's suspension",
+               "a computing read of a suspended task from inside its own dependency's computation (re-entrant scheduler) "
+               "and AsyncContext pause()/resume() failures are not explored"]
 
 KINDS = ["KLazy", "KLazy", "KLazy", "KTask", "KTask", "KPlain", "KConst", "KError"]
 
@@ -70,9 +77,87 @@ def gen_case(rng, malformed):
     return {"args": [kind, prov, o0, ops], "meta": {"malformed": malformed}}
 
 
+def _cleanup(rng):
+    r = rng.random()
+    if r < 0.35:
+        return "CleanOk"
+    if r < 0.70:
+        return {"CleanRaise": [rng.randrange(300, 340)]}
+    if r < 0.80:
+        return {"CleanRaiseBase": [rng.randrange(340, 360)]}
+    return "CleanYield"
+
+
+def gen_susp(rng, malformed):
+    """Scheduled task: phases (suspensions with inner ops), final behaviour, top-level ops."""
+    nsub = [0]
+
+    def sub(prefix):
+        nsub[0] += 1
+        return {prefix + "Subscribe": [nsub[0], "CbOk" if rng.random() < 0.7 else "CbRaise"]}
+
+    # top-level ops: subscribers first (usually), then a mix dominated by reads
+    ops = []
+    for _ in range(rng.choice([0, 1, 1, 2, 3])):
+        ops.append(sub("O"))
+    n = rng.choice([1, 2, 3, 4, 6, 10]) if not malformed else rng.randrange(3, 14)
+    for _ in range(n):
+        r = rng.random()
+        if malformed:
+            if r < 0.25:
+                ops.append({"OSetValue": [_val(rng)]})
+            elif r < 0.4:
+                ops.append({"OSetError": [rng.randrange(200, 260)]})
+            elif r < 0.6:
+                ops.append("OReset")
+            elif r < 0.7:
+                ops.append(sub("O"))
+            else:
+                ops.append(rng.choice(["OValue", "OError", "OCall", "OIsComputed"]))
+        else:
+            if r < 0.30:
+                ops.append("OValue")
+            elif r < 0.50:
+                ops.append("OError")
+            elif r < 0.60:
+                ops.append("OCall")
+            elif r < 0.72:
+                ops.append("OIsComputed")
+            elif r < 0.78:
+                ops.append({"OSetValue": [_val(rng)]})
+            elif r < 0.84:
+                ops.append({"OSetError": [rng.randrange(200, 260)]})
+            elif r < 0.88:
+                ops.append("OReset")
+            else:
+                ops.append(sub("O"))
+    phases = []
+    for _ in range(rng.choice([0, 1, 1, 1, 1, 2, 2, 3])):
+        inner = []
+        for _ in range(rng.choice([0, 1, 2, 2, 3, 4, 6])):
+            r = rng.random()
+            if r < 0.22:
+                inner.append({"ISetError": [rng.randrange(400, 460)]})
+            elif r < 0.40:
+                inner.append({"ISetValue": [_val(rng)]})
+            elif r < 0.60:
+                inner.append(sub("I"))
+            elif r < 0.72:
+                inner.append("IIsComputed")
+            else:
+                inner.append(rng.choice(["IValue", "IError", "ICall"]))
+        dep = {"Ok": [_val(rng)]} if rng.random() < 0.8 else {"Err": [rng.randrange(500, 540)]}
+        phases.append({"mkphase": [rng.choice(["ViaFuture", "ViaBatch"]), _cleanup(rng), inner, dep]})
+    r = rng.random()
+    fin = {"PRet": [_val(rng)]} if r < 0.6 else {"PRaise": [rng.randrange(1, 60)]} if r < 0.92 else {"PBase": [rng.randrange(60, 90)]}
+    return {"args": ["KSusp", phases, fin, ops], "meta": {"malformed": malformed}}
+
+
 def gen_cases(rng, tier):
     n = 400 if tier == "quick" else 6000
     cs = [gen_case(rng, rng.random() < 0.25) for _ in range(n)]
+    m = 300 if tier == "quick" else 5000
+    cs += [gen_susp(rng, rng.random() < 0.25) for _ in range(m)]
     for c in cs:
         c["tree"] = c["args"]
     return cs
@@ -92,11 +177,26 @@ CORPUS = [
     _mk("KConst", [], {"Ok": [{"VInt": [3]}]}, [{"OSubscribe": [1, "CbOk"]}, {"OSetValue": ["VNone"]}, "OValue", "OReset", "OValue", {"OSetValue": ["VNone"]}, "OValue"]),
     _mk("KError", [], {"Err": [101]}, ["OError", "OValue", "OCall", {"OSetError": [202]}, "OIsComputed"]),
     _mk("KPlain", [], {"Ok": ["VNone"]}, ["OValue", "OError", {"OSetError": [203]}, "OError", "OValue", {"OSetValue": ["VNone"]}]),
+    # an error, reset_unsafe(), then a successful completion (by the provider / by set_value): the new epoch reports the value
+    _mk("KLazy", [{"PRaise": [7]}, {"PRet": [{"VInt": [42]}]}], {"Ok": ["VNone"]}, ["OError", "OReset", "OValue", "OError", "OCall"]),
+    _mk("KPlain", [], {"Ok": ["VNone"]}, [{"OSetError": [203]}, "OReset", {"OSetValue": [{"VInt": [7]}]}, "OError", "OValue"]),
+    # scheduled task cancelled from its batch's flush while suspended; the generator's cleanup raises on close()
+    _mk("KSusp", [{"mkphase": ["ViaBatch", {"CleanRaise": [301]}, [{"ISetError": [401]}, {"ISetValue": ["VNone"]}, "IError"], {"Ok": ["VNone"]}]}],
+        {"PRet": [{"VInt": [1]}]}, [{"OSubscribe": [1, "CbOk"]}, "OValue", "OError", {"OSetValue": ["VNone"]}]),
+    # completed with a value by its dependency's provider; the generator ignores GeneratorExit; a subscriber added while suspended
+    _mk("KSusp", [{"mkphase": ["ViaFuture", "CleanYield", [{"ISubscribe": [2, "CbRaise"]}, {"ISetValue": [{"VInt": [5]}]}, {"ISubscribe": [3, "CbOk"]}, "ICall"], {"Err": [501]}]}],
+        {"PRaise": [9]}, [{"OSubscribe": [1, "CbOk"]}, "OCall", "OIsComputed", "OReset", "OValue"]),
+    # two suspensions, nothing completes the task from outside: the failing second dependency does
+    _mk("KSusp", [{"mkphase": ["ViaFuture", {"CleanRaiseBase": [341]}, ["IIsComputed", "IValue"], {"Ok": [{"VInt": [2]}]}]},
+                  {"mkphase": ["ViaBatch", "CleanOk", [{"ISubscribe": [2, "CbOk"]}], {"Err": [502]}]}],
+        {"PRet": ["VNone"]}, [{"OSubscribe": [1, "CbRaise"]}, "OError", "OValue", {"OSetError": [204]}]),
 ]
 
 
 def model_input(c):
-    return " ".join(coqrun.coq_of(a) for a in c["args"])
+    if c["args"][0] == "KSusp":
+        return "(CTask " + " ".join(coqrun.coq_of(a) for a in c["args"][1:]) + ")"
+    return "(CFut " + " ".join(coqrun.coq_of(a) for a in c["args"]) + ")"
 
 
 def canon(c):
@@ -107,6 +207,8 @@ def canon(c):
 def nontrivial(c):
     ops = c["args"][3]
     kind = c["args"][0]
+    if kind == "KSusp":
+        return bool(c["args"][1]) and any(o in ("OValue", "OError", "OCall") for o in ops)
     completing = [i for i, o in enumerate(ops) if (o in ("OValue", "OError", "OCall") and kind in ("KLazy", "KTask"))
                   or (isinstance(o, dict) and next(iter(o)) in ("OSetValue", "OSetError"))]
     if kind in ("KConst", "KError"):
@@ -115,14 +217,35 @@ def nontrivial(c):
 
 
 def compare(c, m, io):
-    if m != io["out"]:
+    if "Hang" in io:
+        return "the implementation did not terminate on this case"
+    if c["args"][0] == "KSusp":
+        if m != {"OutTask": [io["out"]]}:
+            return "top-level results/inner results/callback log/run count differ between TaskFut.run_task and the implementation"
+        return None
+    if m != {"OutFut": [io["out"]]}:
         return "results/callback log/run count differ between Futures.run_case and the implementation"
     return None
 
 
 def distribution(cases):
-    d = {"kinds": {}, "oplen": {}, "malformed": 0}
+    d = {"kinds": {}, "oplen": {}, "malformed": 0, "susp_phases": {}, "susp_cleanup": {}, "susp_via": {},
+         "susp_with_inner_set": 0, "susp_inner_set_under_raising_cleanup": 0}
     for c in cases:
+        if c["args"][0] == "KSusp":
+            ph = c["args"][1]
+            d["susp_phases"][str(len(ph))] = d["susp_phases"].get(str(len(ph)), 0) + 1
+            anyset = anybad = False
+            for p in ph:
+                via, clean, inner, dep = p["mkphase"]
+                cn = _opname(clean)
+                d["susp_cleanup"][cn] = d["susp_cleanup"].get(cn, 0) + 1
+                d["susp_via"][via] = d["susp_via"].get(via, 0) + 1
+                hs = any(_opname(o) in ("ISetValue", "ISetError") for o in inner)
+                anyset = anyset or hs
+                anybad = anybad or (hs and cn != "CleanOk")
+            d["susp_with_inner_set"] += 1 if anyset else 0
+            d["susp_inner_set_under_raising_cleanup"] += 1 if anybad else 0
         d["kinds"][c["args"][0]] = d["kinds"].get(c["args"][0], 0) + 1
         L = len(c["args"][3])
         b = "0" if L == 0 else "1-3" if L <= 3 else "4-12" if L <= 12 else "13-40"
@@ -135,48 +258,195 @@ def _opname(o):
     return o if isinstance(o, str) else next(iter(o))
 
 
+E_SKIPPED = -20
+_SEM = {"IIsComputed": "OIsComputed", "ISetValue": "OSetValue", "ISetError": "OSetError", "ISubscribe": "OSubscribe",
+        "IValue": "OValue", "IError": "OError", "ICall": "OCall"}
+
+
+def _op_checks(label, name, arg, r, pre, post, runs, where):
+    """Clauses (a)-(c) of the statement for ONE operation: `pre`/`post` = the future's outcome (None =
+    not computed) observed right before / after it, `r` = what it returned or raised, `runs` = how
+    often the underlying computation was started during it."""
+    fs = []
+    sem = _SEM.get(name, name)
+    # (a) single assignment
+    if sem in ("OSetValue", "OSetError") and pre is not None:
+        if r != {"RRaise": [-3]}:
+            fs.append(dict(clause="single-assignment", site="%s:%s:no-FutureIsAlreadyComputed" % (label, name),
+                           msg="second %s on a computed %s did not raise FutureIsAlreadyComputed (%s)" % (name, label, where)))
+        if post != pre:
+            fs.append(dict(clause="single-assignment", site="%s:%s:outcome-changed" % (label, name),
+                           msg="%s on a computed %s changed its outcome from %s to %s (%s)" % (name, label, pre, post, where)))
+    # the outcome that was set is the one the future holds from then on
+    if sem in ("OSetValue", "OSetError") and pre is None:
+        want = {"Ok": arg} if sem == "OSetValue" else {"Err": arg}
+        if post != want:
+            fs.append(dict(clause="stable-outcome", site="%s:%s:set-not-visible" % (label, name),
+                           msg="%s(%s) on an uncomputed %s left it with outcome %s (%s)" % (name, arg, label, post, where)))
+    # (b) one consistent outcome: every read on a future that is computed after the read reports that outcome
+    if sem in ("OValue", "OCall", "OError", "OIsComputed"):
+        if pre is not None and post != pre:
+            fs.append(dict(clause="stable-outcome", site="%s:%s:outcome-changed-by-read" % (label, name),
+                           msg="%s changed the outcome of a computed %s (%s)" % (name, label, where)))
+        if post is not None and r != {"RRaise": [E_SKIPPED]}:
+            if sem in ("OValue", "OCall"):
+                want = {"RVal": post["Ok"]} if "Ok" in post else {"RRaise": post["Err"]}
+            elif sem == "OError":
+                want = "RNoError" if "Ok" in post else {"RErr": post["Err"]}
+            else:
+                want = {"RBool": ["true"]}
+            if r != want:
+                fs.append(dict(clause="stable-outcome",
+                               site="%s:%s:%s-instead-of-%s" % (label, name, _opname(r), _opname(want)),
+                               msg="%s on %s reported %s although the future's outcome is %s (%s, computed before=%s)" % (
+                                   name, label, r, post, where, pre is not None)))
+        # (c) the computation runs at most once per completion
+        if pre is not None and runs != 0:
+            fs.append(dict(clause="compute-once", site="%s:%s:reran-when-computed" % (label, name),
+                           msg="%s ran the underlying computation of an already computed %s again (%s)" % (name, label, where)))
+        if runs > 1:
+            fs.append(dict(clause="compute-once", site="%s:%s:ran-twice" % (label, name),
+                           msg="%s ran the underlying computation %d times (%s)" % (name, runs, where)))
+    return fs
+
+
+def _arg(o):
+    return [] if isinstance(o, str) else next(iter(o.values()))
+
+
+class _Epoch:
+    """'From then on value(), error(), calling the future and is_computed() always report that same
+    outcome', per epoch between reset_unsafe() calls, WITHOUT looking at the future's state: the
+    outcome of the epoch is the one that was set - by the set_value(v) / set_error(e) that found the
+    future uncomputed, or by the underlying computation (what the provider / task body was observed
+    to return or raise during the completing read) - and every later read has to report it."""
+
+    def __init__(self, label, initial=None):
+        self.label = label
+        self.exp = initial        # outcome of the current epoch, None while nothing was set
+        self.src = "construction"
+
+    def op(self, name, arg, r, pre, post, prov, where, label=None):
+        label = label or self.label
+        sem = _SEM.get(name, name)
+        fs = []
+        if sem == "OReset":
+            self.exp = None
+        elif sem in ("OSetValue", "OSetError"):
+            if self.exp is None and pre is None:
+                self.exp = {"Ok": arg} if sem == "OSetValue" else {"Err": arg}
+                self.src = name
+        elif sem in ("OValue", "OCall", "OError", "OIsComputed"):
+            if r == {"RRaise": [E_SKIPPED]}:
+                return fs
+            if self.exp is None and pre is None and post is not None:
+                # completed by the underlying computation during this read
+                done = [x for x in prov if "Base" not in x or self.label in ("KTask", "KSusp")]
+                if len(done) == 1:
+                    x = done[0]
+                    self.exp = {"Err": x["Base"]} if "Base" in x else x
+                    self.src = "computation"
+            if self.exp is not None:
+                e = self.exp
+                if sem in ("OValue", "OCall"):
+                    want = {"RVal": e["Ok"]} if "Ok" in e else {"RRaise": e["Err"]}
+                elif sem == "OError":
+                    want = "RNoError" if "Ok" in e else {"RErr": e["Err"]}
+                else:
+                    want = {"RBool": ["true"]}
+                if r != want:
+                    fs.append(dict(clause="stable-outcome",
+                                   site="%s:%s:%s-after-%s-%s" % (label, name, _opname(r), self.src, "value" if "Ok" in e else "error"),
+                                   msg="%s on %s reported %s although the outcome set by %s in this epoch is %s (%s)" % (
+                                       name, label, r, self.src, e, where)))
+        return fs
+
+
+def _susp_monitors(c, io):
+    """Scheduled task: the observation points taken before / after every operation (top-level or
+    issued while the task is suspended) cut the history into segments; each segment is either one
+    operation without nested ones, or a stretch of the scheduler running the task's body."""
+    _, phases, fin, ops = c["args"]
+    pts = io["points"]
+    log = io["out"][""][2]
+    fs = []
+    # (a)-(c) per operation
+    open_top = None
+    for p in pts:
+        if p["lvl"] == "top" and p["when"] == "pre":
+            open_top = p
+        elif p["lvl"] == "top":
+            fs += _op_checks("KSusp", p["op"], _arg(ops[p["i"]]), p["r"], open_top["st"], p["st"],
+                             p["runs"] - open_top["runs"], "op %d" % p["i"])
+    open_in = None
+    for p in pts:
+        if p["lvl"] == "in" and p["when"] == "pre":
+            open_in = p
+        elif p["lvl"] == "in":
+            o = phases[p["phase"]]["mkphase"][2][p["i"]]
+            fs += _op_checks("KSusp/%s" % p["clean"], p["op"], _arg(o), p["r"], open_in["st"], p["st"],
+                             p["runs"] - open_in["runs"], "inner op %d of suspension %d, via %s" % (p["i"], p["phase"], p["via"]))
+    # (b') per-epoch outcome, operations in execution order (an inner operation ends before the
+    # top-level read that contains it)
+    ep = _Epoch("KSusp")
+    stack = []
+    for p in pts:
+        if p["when"] == "pre":
+            stack.append(p)
+            continue
+        q = stack.pop()
+        if p["lvl"] == "top":
+            fs += ep.op(p["op"], _arg(ops[p["i"]]), p["r"], q["st"], p["st"], io["prov"][q["nprov"]:p["nprov"]], "op %d" % p["i"])
+        else:
+            o = phases[p["phase"]]["mkphase"][2][p["i"]]
+            fs += ep.op(p["op"], _arg(o), p["r"], q["st"], p["st"], [],
+                        "inner op %d of suspension %d, via %s" % (p["i"], p["phase"], p["via"]), label="KSusp/%s" % p["clean"])
+    # (d) every subscriber notified exactly once per completion, after the outcome is visible
+    top = None
+    for p, q in zip(pts, pts[1:]):
+        if p["lvl"] == "top" and p["when"] == "pre":
+            top = p
+        one_op = (p["when"], q["when"]) == ("pre", "post") and p["lvl"] == q["lvl"]
+        if p["lvl"] == "top" and p["when"] == "post":
+            continue                      # between two top-level operations nothing runs
+        if one_op:
+            label = "KSusp:%s" % p["op"] if p["lvl"] == "top" else "KSusp/%s:%s" % (q["clean"], p["op"])
+            where = "op %d" % p["i"] if p["lvl"] == "top" else "inner op %d of suspension %d, via %s" % (p["i"], q["phase"], q["via"])
+        else:
+            label = "KSusp:%s:scheduler" % (top["op"] if top else "?")
+            where = "the scheduler running the body inside op %d" % (top["i"] if top else -1)
+            if p["st"] is not None and q["st"] != p["st"]:
+                fs.append(dict(clause="stable-outcome", site=label + ":outcome-changed",
+                               msg="outcome of the computed task changed from %s to %s in %s" % (p["st"], q["st"], where)))
+        new = log[p["nlog"]:q["nlog"]]
+        if p["st"] is None and q["st"] is not None:
+            want = [{"": [sid, q["st"]]} for sid in p["subs"]]
+            if new != want:
+                fs.append(dict(clause="notify-once-after", site=label + ":callbacks",
+                               msg="completion with %s notified %s, expected exactly %s (%s)" % (q["st"], new, want, where)))
+        elif new:
+            fs.append(dict(clause="notify-once-after", site=label + ":spurious-callback",
+                           msg="callbacks %s fired although the task was not completed there (%s)" % (new, where)))
+    return fs
+
+
 def monitors(c, io, build):
     """Direct encoding of the C10 statement over what the implementation did."""
+    if "Hang" in io:
+        return [dict(clause="compute-once", site="%s:hang" % c["args"][0], msg="the operations did not terminate")]
+    if c["args"][0] == "KSusp":
+        return _susp_monitors(c, io)
     kind, prov, o0, ops = c["args"]
     res, log, runs = io["out"][""]
     fs = []
     nlog_prev = 0
     subs = []
+    ep = _Epoch(kind, o0 if kind in ("KConst", "KError") else None)
     for i, (o, r, ob) in enumerate(zip(ops, res, io["obs"])):
         name = _opname(o)
         pre, post = ob["pre"], ob["post"]
-        # (a) single assignment
-        if name in ("OSetValue", "OSetError") and pre is not None:
-            if r != {"RRaise": [-3]}:
-                fs.append(dict(clause="single-assignment", site="%s:%s:no-FutureIsAlreadyComputed" % (kind, name),
-                               msg="second %s on a computed %s did not raise FutureIsAlreadyComputed (op %d)" % (name, kind, i)))
-            if post != pre:
-                fs.append(dict(clause="single-assignment", site="%s:%s:outcome-changed" % (kind, name),
-                               msg="%s on a computed %s changed its outcome from %s to %s (op %d)" % (name, kind, pre, post, i)))
-        # (b) one consistent outcome: every read on a future that is computed after the read reports that outcome
-        if name in ("OValue", "OCall", "OError", "OIsComputed"):
-            if pre is not None and post != pre:
-                fs.append(dict(clause="stable-outcome", site="%s:%s:outcome-changed-by-read" % (kind, name),
-                               msg="%s changed the outcome of a computed %s (op %d)" % (name, kind, i)))
-            if post is not None:
-                if name in ("OValue", "OCall"):
-                    want = {"RVal": post["Ok"]} if "Ok" in post else {"RRaise": post["Err"]}
-                elif name == "OError":
-                    want = "RNoError" if "Ok" in post else {"RErr": post["Err"]}
-                else:
-                    want = {"RBool": ["true"]}
-                if r != want:
-                    fs.append(dict(clause="stable-outcome",
-                                   site="%s:%s:%s-instead-of-%s" % (kind, name, _opname(r), _opname(want)),
-                                   msg="%s on %s reported %s although the future's outcome is %s (op %d, computed before=%s)" % (
-                                       name, kind, r, post, i, pre is not None)))
-            # (c) the computation runs at most once per completion
-            if pre is not None and ob["runs"] != 0:
-                fs.append(dict(clause="compute-once", site="%s:%s:reran-when-computed" % (kind, name),
-                               msg="%s ran the underlying computation of an already computed %s again (op %d)" % (name, kind, i)))
-            if ob["runs"] > 1:
-                fs.append(dict(clause="compute-once", site="%s:%s:ran-twice" % (kind, name),
-                               msg="%s ran the underlying computation %d times (op %d)" % (name, ob["runs"], i)))
+        fs += _op_checks(kind, name, _arg(o), r, pre, post, ob["runs"], "op %d" % i)
+        fs += ep.op(name, _arg(o), r, pre, post, ob.get("prov", []), "op %d" % i)
         # (d) every subscriber notified exactly once per completion, after the outcome is visible
         new = log[nlog_prev:ob["nlog"]]
         nlog_prev = ob["nlog"]
@@ -199,11 +469,25 @@ def monitors(c, io, build):
     return fs
 
 
+def _case(a):
+    return {"args": a, "tree": a, "meta": {"shrunk": True}}
+
+
 def shrink(c):
     kind, prov, o0, ops = c["args"]
     for i in range(len(ops)):
-        a = [kind, prov, o0, ops[:i] + ops[i + 1:]]
-        yield {"args": a, "tree": a, "meta": {"shrunk": True}}
+        yield _case([kind, prov, o0, ops[:i] + ops[i + 1:]])
+    if kind == "KSusp":
+        phases = prov
+        for i in range(len(phases)):
+            yield _case([kind, phases[:i] + phases[i + 1:], o0, ops])
+            via, clean, inner, dep = phases[i]["mkphase"]
+            for j in range(len(inner)):
+                ph = {"mkphase": [via, clean, inner[:j] + inner[j + 1:], dep]}
+                yield _case([kind, phases[:i] + [ph] + phases[i + 1:], o0, ops])
+            if via != "ViaFuture":
+                ph = {"mkphase": ["ViaFuture", clean, inner, dep]}
+                yield _case([kind, phases[:i] + [ph] + phases[i + 1:], o0, ops])
+        return
     if len(prov) > 1:
-        a = [kind, prov[:-1], o0, ops]
-        yield {"args": a, "tree": a, "meta": {"shrunk": True}}
+        yield _case([kind, prov[:-1], o0, ops])
